@@ -86,8 +86,16 @@ func (e *Engine) load(patterns ...string) error {
 		e.ssaPkgs[p.Pkg.Path()] = p
 		e.typPkgs[p.Pkg.Path()] = p.Pkg
 	}
-	// contracts from the repository's contracts_verif.go files
-	for _, p := range pkgs {
+	// contracts from the contracts_verif.go files of every module package in
+	// the import graph (callers use the contracts of the packages they import)
+	var modPkgs []*packages.Package
+	packages.Visit(pkgs, nil, func(p *packages.Package) {
+		if strings.HasPrefix(p.PkgPath, modulePrefix) {
+			modPkgs = append(modPkgs, p)
+		}
+	})
+	sort.Slice(modPkgs, func(i, j int) bool { return modPkgs[i].PkgPath < modPkgs[j].PkgPath })
+	for _, p := range modPkgs {
 		for _, f := range p.GoFiles {
 			if filepath.Base(f) != "contracts_verif.go" {
 				continue
